@@ -67,7 +67,10 @@ def build_aave(sim, mw):
         return market
     for t, info in zip(tokens, infos):
         cols = {}
-        for c in COLS:
+        # the per-token frames name their columns; in which order a caller's frame lists them is the caller's business
+        # (a database export, a frame sorted by label, a dict built indices first)
+        order = {"sorted": sorted(COLS), "reversed": list(reversed(COLS)), "indices_first": list(COLS[3:]) + list(COLS[:3])}.get(mw.get("col_order"), COLS)
+        for c in order:
             series = mw.get(c, {}).get(t)
             if series is None:
                 series = ["0" if c.endswith("rate") else "1"] * n
@@ -482,19 +485,25 @@ def gen_aave_market(rng, name, n, prices, tokens=None, index_style=None, min_gap
         if frozen:
             for c in ("liquidity_rate", "variable_borrow_rate"):
                 mw[c][t] = [mw[c][t][0]] * n
+    if rng.random() < 0.2:
+        mw["col_order"] = rng.choice(["sorted", "reversed", "indices_first"])
     return mw
 
 
 def add_bystander(rng, world, prob=0.25):
     """With probability `prob`: a second Aave pool over the same tokens with an index history of its own, registered with the
-    broker BEFORE the pool under test and never touched by the program. Whatever the bar loop does per market must reach each
+    broker before or after the pool under test and never touched by the program. Whatever the bar loop does per market must reach each
     market with that market's own rows."""
     if rng.random() >= prob:
         return None
     mw0 = market_of(world)
     by = gen_aave_market(rng, "aave_by", int(world["n"]), world["prices"], tokens=list(mw0["tokens"]), all_enabled=True,
                          index_style=rng.choice(["slow", "fast", "jumpy"]))
-    world["markets"].insert(0, by)
+    # before it in half of the cases (constructed and registered first), after it in the other half
+    if rng.random() < 0.5:
+        world["markets"].insert(0, by)
+    else:
+        world["markets"].append(by)
     return by
 
 
